@@ -29,6 +29,10 @@ func main() {
 		panicChild(os.Args[2], os.Args[3], early)
 		return
 	}
+	if len(os.Args) >= 4 && os.Args[1] == "-sigstartchild" {
+		sigStartChild(os.Args[2], os.Args[3])
+		return
+	}
 	if len(os.Args) >= 4 && os.Args[1] == "-sigchild" {
 		sigChild(os.Args[2], os.Args[3])
 		return
@@ -127,6 +131,96 @@ func sigChild(maskStr, dm string) {
 	case <-time.After(10 * time.Second): // failure time-out: the signal was not served
 		os.Exit(4)
 	}
+}
+
+// sigStartChild (round 4): a Vaxis WITH its signal handlers on a terminal that never answers DA1: New has sent its
+// queries and waits (up to 3 s) for the replies — raw mode is set, sendQueries has set mode 2048 blindly — and
+// setupSignals, the LAST step of New, has not run yet.  The parent sends SIGTERM in that window.
+func sigStartChild(maskStr, dm string) {
+	var mask uint32
+	fmt.Sscanf(maskStr, "%d", &mask)
+	caps := fakeconsole.FromMask(mask)
+	caps.NoDA1 = true
+	fc := fakeconsole.New(12, 5, caps)
+	out := bufio.NewWriter(os.Stdout)
+	var mu sync.Mutex
+	fc.Mirror = func(p []byte) {
+		mu.Lock()
+		fmt.Fprintf(out, "W %s\n", hx.Hex(string(p)))
+		out.Flush()
+		mu.Unlock()
+	}
+	go func() { time.Sleep(10 * time.Second); os.Exit(7) }() // failure time-out: never outlive the parent's patience
+	_, err := vaxis.New(vaxis.Options{WithConsole: fc, DisableMouse: dm == "1"})
+	if err != nil {
+		os.Exit(3)
+	}
+	// New came back (after its 3 s deadline) without having been interrupted: the signal did not arrive in the
+	// window.  No Close here: this terminal never answers DA1, Suspend's wake-up query would wait for ever.
+	os.Exit(6)
+}
+
+// sigStartSession: see sigStartChild.  `killed`: the process died by the signal (no handler yet); what it had
+// written is judged by the mode terminal.
+func sigStartSession(r *hx.Run, id string, mask uint32, dm bool) error {
+	cmd := exec.Command(os.Args[0], "-sigstartchild", fmt.Sprint(mask), map[bool]string{true: "1", false: "0"}[dm])
+	pipe, err := cmd.StdoutPipe()
+	if err != nil {
+		return err
+	}
+	if err := cmd.Start(); err != nil {
+		return err
+	}
+	// failure time-out only: a child that neither dies nor exits is killed so that the run goes on
+	watchdog := time.AfterFunc(15*time.Second, func() { cmd.Process.Kill() })
+	defer watchdog.Stop()
+	sc := bufio.NewScanner(pipe)
+	sc.Buffer(make([]byte, 1<<20), 1<<20)
+	var written []string
+	sent := false
+	for sc.Scan() {
+		l := sc.Text()
+		if strings.HasPrefix(l, "W ") {
+			h := l[2:]
+			if h == "-" {
+				h = ""
+			}
+			written = append(written, h)
+			// the DA1 query is the last query sendQueries writes: New then waits for the replies
+			if !sent && strings.Contains(h, hx.Hex("\x1b[=c\x1b[c")) {
+				sent = true
+				cmd.Process.Signal(syscall.SIGTERM)
+			}
+		}
+	}
+	err = cmd.Wait()
+	killed := false
+	if ee, ok := err.(*exec.ExitError); ok {
+		if ws, ok := ee.Sys().(syscall.WaitStatus); ok && ws.Signaled() && ws.Signal() == syscall.SIGTERM {
+			killed = true
+		}
+	}
+	caps := fakeconsole.FromMask(mask)
+	env := []byte{b01(caps.KittyKeyboard), b01(caps.Sixel), b01(caps.UnicodeCore), b01(caps.ExplicitWidth), b01(caps.ColorTheme),
+		b01(caps.InBandResize), b01(caps.Osc176), b01(caps.Sync), b01(dm)}
+	app := ""
+	if caps.Osc176 {
+		app = "fakeapp"
+	}
+	ucs := caps.CursorStyle
+	if ucs < 0 {
+		ucs = 0
+	}
+	r.Case(id)
+	r.Emit(fmt.Sprintf("env %s 1 %d %s %s", env, ucs, hx.Hex(app), origVals(caps)), "-")
+	if !killed || !sent {
+		r.Emit("closeby sigstartup", "notkilled")
+		r.Count("sigstartup-not-in-window")
+		return nil
+	}
+	r.Emit("closeby sigstartup", strings.Join(written, ""))
+	r.Count("sigstartup-killed")
+	return nil
 }
 
 // sigProcSession: see sigChild.
@@ -840,6 +934,12 @@ func run(r *hx.Run) error {
 		sig := []syscall.Signal{syscall.SIGTERM, syscall.SIGINT, syscall.SIGQUIT, syscall.SIGABRT}[i%4]
 		r.Count("sigproc-signal-" + sig.String())
 		if err := sigProcSession(r, fmt.Sprintf("sigproc-%d", i), m, i%2 == 1, sig); err != nil {
+			return err
+		}
+	}
+	// round 4: a real SIGTERM during New, before setupSignals has run (with and without in-band resize)
+	for i, m := range []uint32{1 << 14, 0} {
+		if err := sigStartSession(r, fmt.Sprintf("sigstart-%d", i), m, false); err != nil {
 			return err
 		}
 	}
